@@ -18,7 +18,7 @@ pub struct C20;
 pub const CHECK: C20 = C20;
 pub fn plan(t: Tier) -> vcore::Plan {
     // a case costs 1-4 process runs (a few ms each); small chunks so that all workers share the work
-    let mut p = vcore::Plan::new(t.pick(4_000, 120_000), 160);
+    let mut p = vcore::Plan::new(t.pick(4_000, 300_000), 160);
     p.chunk = t.pick(100, 1000);
     // tape shrinking matters little here (few, independent choices; `simplify_at` does the rest) and costs process runs
     p.max_shrink_iters = 80;
@@ -51,7 +51,9 @@ pub enum Mode {
     OutParentIsFile,
     /// `-o DIR` where DIR is an existing directory
     OutIsDir,
-    /// `-o /dev/full`: the file can be created, every write fails (disk full)
+    /// `-o LINK` where LINK is a symbolic link to /dev/full: a file that can be opened but not written (disk
+    /// full). A driver may also replace the link by the complete program. (Never `/dev/full` itself: a driver that
+    /// writes a temporary file and renames it would replace the device node when run as root.)
     OutDevFull,
     /// `-o FILE` (new) while the process may not grow a file beyond 8 KiB (RLIMIT_FSIZE, SIGXFSZ ignored, so
     /// `write` returns a short count and then EFBIG) — a quota / nearly full disk
@@ -67,7 +69,7 @@ impl Mode {
             Mode::OutMissingDir => "unwritable-missing-dir",
             Mode::OutParentIsFile => "unwritable-parent-is-file",
             Mode::OutIsDir => "unwritable-is-directory",
-            Mode::OutDevFull => "unwritable-dev-full",
+            Mode::OutDevFull => "symlink-to-dev-full",
             Mode::OutQuota => "file-size-limited",
         }
     }
@@ -75,6 +77,7 @@ impl Mode {
         match self {
             Mode::OutNew | Mode::OutExisting => "file",
             Mode::OutQuota => "size-limited",
+            Mode::OutDevFull => "full-device",
             Mode::Stdout => "stdout",
             Mode::Run => "run",
             _ => "unwritable",
@@ -757,7 +760,13 @@ impl C20 {
         let target: Option<PathBuf> = match case.mode {
             Mode::Run | Mode::Stdout => None,
             Mode::OutNew | Mode::OutQuota => Some(outd.join("new.lua")),
-            Mode::OutDevFull => Some(PathBuf::from("/dev/full")),
+            Mode::OutDevFull => {
+                let p = outd.join("full");
+                if std::os::unix::fs::symlink("/dev/full", &p).is_err() {
+                    return Verdict::Discard("materialize-failed".into());
+                }
+                Some(p)
+            }
             Mode::OutExisting => {
                 let p = outd.join("existing.lua");
                 if std::fs::write(&p, &previous).is_err() {
@@ -790,6 +799,7 @@ impl C20 {
         if case.rel_out && case.mode.kind() != "run" && case.mode.kind() != "stdout" {
             labels.add("relative-output-path");
         }
+        let before = snapshot(&outd);
         let req = case.require.as_deref();
         let args = build_args(&proj.main, out_arg.as_deref(), req, case.no_std, case.order, case.long_flags);
         let cmdline = format!("sylt {}", args.join(" "));
@@ -801,6 +811,7 @@ impl C20 {
         } else {
             run!(&args)
         };
+        let after = snapshot(&outd);
         let so = String::from_utf8_lossy(&r.stdout).to_string();
         let se = String::from_utf8_lossy(&r.stderr).to_string();
         let streams = |r: &RunOut| format!("--- stdout ---\n{}\n--- stderr ---\n{}", cut(&String::from_utf8_lossy(&r.stdout), 1500), cut(&String::from_utf8_lossy(&r.stderr), 800));
@@ -826,7 +837,9 @@ impl C20 {
         // legitimately create it; then the complete output must be there)
         let (expect_zero, failure_kind): (Option<bool>, &str) = match (lib_class, case.mode) {
             ("rejected", _) => (Some(false), "compile"),
-            (_, Mode::OutParentIsFile) | (_, Mode::OutIsDir) | (_, Mode::OutDevFull) => (Some(false), "unwritable"),
+            (_, Mode::OutParentIsFile) | (_, Mode::OutIsDir) => (Some(false), "unwritable"),
+            // writing through the link fails, replacing the link works: either way all-or-nothing (below)
+            (_, Mode::OutDevFull) => (None, "full-device"),
             // the complete program cannot be written; what the exit status has to be is settled by the
             // all-or-nothing rule below (0 demands the complete file)
             (_, Mode::OutQuota) => (None, "size-limited"),
@@ -1010,6 +1023,23 @@ impl C20 {
                 }
                 labels.add("size-limited-held");
             }
+            Mode::OutDevFull => {
+                let t = target.as_ref().unwrap();
+                let is_link = std::fs::read_link(t).map(|l| l == Path::new("/dev/full")).unwrap_or(false);
+                if r.ok() {
+                    let now = if is_link { None } else { std::fs::read(t).ok() };
+                    if now.is_none() || now.as_deref() != lib_bytes {
+                        return viol(
+                            "C20/output-file/partial-after-success",
+                            case,
+                            format!("`{}` (the output path is a symbolic link to /dev/full) exited with 0 but the complete program is not at that path\n{}", cmdline, streams(&r)),
+                        );
+                    }
+                    labels.add("full-device-link-replaced");
+                } else if !is_link {
+                    return viol("C20/output-file/touched-on-failure", case, format!("`{}` failed ({}) but the symbolic link at the output path was replaced\n{}", cmdline, r.status(), streams(&r)));
+                }
+            }
             Mode::Stdout => {
                 if r.ok() {
                     if let Some(l) = lib_bytes {
@@ -1022,6 +1052,36 @@ impl C20 {
                 }
             }
             _ => {}
+        }
+
+        // ---- all-or-nothing, second half: nothing else appears or changes next to the output path ----------------
+        // (temporary files of an atomic write must be gone afterwards, whatever the outcome)
+        {
+            let mut allowed: Vec<String> = Vec::new();
+            if r.ok() {
+                if let Some(t) = &target {
+                    if let Ok(rel) = t.strip_prefix(&outd) {
+                        allowed.push(rel.to_string_lossy().to_string());
+                    }
+                }
+                if case.mode == Mode::OutMissingDir {
+                    allowed.push("missing".into());
+                }
+            }
+            let mut changed: Vec<String> = Vec::new();
+            for k in before.keys().chain(after.keys()) {
+                if before.get(k) != after.get(k) && !allowed.contains(k) && !changed.contains(k) {
+                    changed.push(k.clone());
+                }
+            }
+            if !changed.is_empty() {
+                let what: Vec<String> = changed.iter().map(|k| format!("{} ({} -> {})", k, before.get(k).cloned().unwrap_or_else(|| "absent".into()), after.get(k).cloned().unwrap_or_else(|| "absent".into()))).collect();
+                return viol(
+                    if r.ok() { "C20/output-file/stray-file-after-success" } else { "C20/output-file/stray-file-on-failure" },
+                    case,
+                    format!("`{}` ({}): besides the output file these entries of the output directory appeared or changed: {}\n{}", cmdline, r.status(), what.join(", "), streams(&r)),
+                );
+            }
         }
 
         let accepted = lib_bytes.is_some();
@@ -1107,7 +1167,8 @@ impl C20 {
         }
 
         // ---- clause 6: `--no-std` changes nothing for std-free programs -------------------------------------------
-        if std_free && !case.mode.unwritable() && case.mode != Mode::OutQuota {
+        // (only where the output sink itself cannot fail: the twin run writes to an ordinary new file)
+        if std_free && matches!(case.mode.kind(), "file" | "stdout" | "run") {
             let twin = outd.join("twin-stdtoggle.lua");
             let o: Option<String> = match case.mode {
                 Mode::Run => None,
@@ -1174,6 +1235,37 @@ impl C20 {
     }
 }
 
+/// every entry below `root` (relative path -> kind, size and content hash)
+fn snapshot(root: &Path) -> BTreeMap<String, String> {
+    fn walk(root: &Path, d: &Path, out: &mut BTreeMap<String, String>) {
+        let rd = match std::fs::read_dir(d) {
+            Ok(r) => r,
+            Err(_) => return,
+        };
+        for e in rd.flatten() {
+            let p = e.path();
+            let rel = p.strip_prefix(root).unwrap_or(&p).to_string_lossy().to_string();
+            let desc = match std::fs::symlink_metadata(&p) {
+                Err(_) => "unreadable".to_string(),
+                Ok(m) if m.file_type().is_symlink() => format!("link to {}", std::fs::read_link(&p).map(|l| l.to_string_lossy().to_string()).unwrap_or_default()),
+                Ok(m) if m.is_dir() => {
+                    walk(root, &p, out);
+                    "directory".to_string()
+                }
+                Ok(m) if m.is_file() => {
+                    let b = std::fs::read(&p).unwrap_or_default();
+                    format!("file of {} bytes #{:016x}", b.len(), vcore::hash64(&b[..]))
+                }
+                Ok(_) => "special file".to_string(),
+            };
+            out.insert(rel, desc);
+        }
+    }
+    let mut out = BTreeMap::new();
+    walk(root, root, &mut out);
+    out
+}
+
 fn first_diff(a: &[u8], b: &[u8]) -> String {
     let n = a.iter().zip(b.iter()).take_while(|(x, y)| x == y).count();
     let show = |s: &[u8]| {
@@ -1198,11 +1290,8 @@ impl Check for C20 {
         let mut t = Tape::new(u);
         let class = ["accepted", "rejected", "runtime"][t.weighted(&[40, 35, 25])];
         let uses_std = t.chance(2, 5);
-        // reported finding C20/output-file/partial-after-success (size-limited output file): the trigger is avoided
-        // for 80 % of the budget so that the search goes on; C20_AVOID=quota switches it off completely
-        let raw = t.chance(1, 5) && std::env::var("C20_AVOID").map(|v| !v.contains("quota")).unwrap_or(true);
         let modes = [Mode::OutNew, Mode::Stdout, Mode::Run, Mode::OutExisting, Mode::OutMissingDir, Mode::OutParentIsFile, Mode::OutIsDir, Mode::OutDevFull, Mode::OutQuota];
-        let mode = modes[t.weighted(&[22, 18, 25, 15, 6, 6, 5, 4, if raw { 12 } else { 0 }])];
+        let mode = modes[t.weighted(&[22, 18, 25, 15, 6, 6, 5, 5, 8])];
         // in run mode a required module can never be found (no such file; mini-Lua has no file system), so the
         // flag turns every accepted program into a run-time failure there: keep that combination, but rarer
         let require = match t.weighted(if mode == Mode::Run { &[70, 15, 15] } else { &[40, 30, 30] }) {
@@ -1344,9 +1433,8 @@ impl Check for C20 {
          errors in `start`, a helper function or a second file | accepted but failing at run time through a false `<=>` or a \
          reached `<!>`, directly, in a branch or in a called function) x uses-std (print/as_str) or std-free x mode (`-o FILE` \
          new / existing with short or 64 KiB previous content / in a missing directory / below a regular file / naming a \
-         directory / /dev/full / new while the process may not grow files beyond 8 KiB (RLIMIT_FSIZE with SIGXFSZ ignored: \
-         a quota or nearly full disk; only in the 20 % of the budget that does not avoid open findings); absolute or \
-         cwd-relative `-o` path; `-o -`; run mode) x `--require` (absent, plain, with .lua suffix) x `--no-std` x flag position (before, \
+         directory / a symbolic link to /dev/full / new while the process may not grow files beyond 8 KiB (RLIMIT_FSIZE \
+         with SIGXFSZ ignored: a quota or nearly full disk); absolute or cwd-relative `-o` path; `-o -`; run mode) x `--require` (absent, plain, with .lua suffix) x `--no-std` x flag position (before, \
          after, around the file) x short/long flag spelling. The real `sylt` binary runs in a private temp dir (NO_COLOR, \
          stdin null, mini-Lua `lua` first on PATH, 20 s timeout => discard). Oracle, differential against the library \
          (`tree`+`compile`) on the same materialised files: (1) exit status 0 <=> library accepts (run mode: and mini-Lua runs \
@@ -1357,8 +1445,9 @@ impl Check for C20 {
          of an `-o FILE` twin run; (5) `--require M`: output starts with preamble.lua (read at run time), then exactly one \
          `require \"M\"` (no .lua), rest identical to a twin run without the flag; (6) std-free programs: a twin run with \
          `--no-std` toggled has the same exit status and (mini-Lua) the same run outcome; (7) unwritable path: nothing created \
-         or changed at/under it; size-limited file: afterwards the file is complete or absent (exit 0 with a truncated \
-         file = partial-after-success). Silent where the property is silent (--help, no file, -v, --dump-tree, stdout content on \
+         or changed at/under it; size-limited file / link to /dev/full: afterwards the path holds the complete \
+         program (then exit 0) or is as before (then non-zero); whatever the outcome, no other entry of the output \
+         directory appears or changes (no temporary file left behind). Silent where the property is silent (--help, no file, -v, --dump-tree, stdout content on \
          success in file mode, wording of failures). non-trivial = at least two of {-o, --require, --no-std} given, or a \
          failing program, or an unwritable path; distinct by hash of the case"
             .into()
@@ -1369,6 +1458,7 @@ impl Check for C20 {
             "run mode is observed with the harness's mini-Lua CLI standing in for `lua` (reads the chunk from stdin, prints run-time errors to stderr, exit 1); `require` never finds a module there, as with real Lua in a directory without that module".into(),
             "`--require NAME.lua` must produce `require \"NAME\"` (the flag's help text calls the argument a Lua file; Lua's require takes the module name)".into(),
             "an output path in a directory that does not exist counts as unwritable only if the driver does not create it: exit 0 with the complete file is accepted there".into(),
+            "all-or-nothing is read to include temporaries: after an `-o FILE` run nothing but FILE itself may have appeared or changed in FILE's directory (a leftover FILE.tmp is reported as stray-file)".into(),
             "std-free = built only from <=>, <!>, arithmetic, comparisons, control flow, own functions and a second user file".into(),
         ]
     }
@@ -1401,7 +1491,8 @@ impl Check for C20 {
             ("mode:unwritable-missing-dir", 0.02),
             ("mode:unwritable-parent-is-file", 0.02),
             ("mode:unwritable-is-directory", 0.02),
-            ("mode:unwritable-dev-full", 0.01),
+            ("mode:symlink-to-dev-full", 0.01),
+            ("mode:file-size-limited", 0.02),
             ("require:plain", 0.08),
             ("require:suffix", 0.08),
             ("no-std", 0.15),
